@@ -287,7 +287,8 @@ def judge_resp(sim, ev, rec):
         if not genuine:
             hits.append(("C20", "no-genuine-verify." + what, "id=%s tool=%s" % (
                 ident, [(t.get("op"), t.get("fault"), t.get("healthy_ok")) for t in rec["tool"]]), enc))
-    wrs, was, waors = bool(spec.get("wrs")), bool(spec.get("was")), bool(spec.get("waors"))
+    eff_flags = fed.effective_flags(spec)
+    wrs, was, waors = eff_flags["wrs"], eff_flags["was"], eff_flags["waors"]
     if rec.get("msgkind") == "attribute_response":
         wrs = was = waors = False       # the three options are documented for authentication responses
     a_signed_all = bool(eff) and all(a["signed"] for a in eff)
@@ -313,7 +314,7 @@ def judge_resp(sim, ev, rec):
     F["time_comfortable"] = comfortable
 
     # ---------------- C05: addressing and solicitation
-    allow_unsol = bool(spec.get("allow_unsolicited"))
+    allow_unsol = eff_flags["allow_unsolicited"]
     addr_ok = True
     irt = m["in_response_to"]
     outstanding = rec["outstanding"]
